@@ -27,6 +27,10 @@ CMP = {ast.Eq: ast.NotEq, ast.NotEq: ast.Eq, ast.Lt: ast.LtE, ast.LtE: ast.Lt, a
        ast.In: ast.NotIn, ast.NotIn: ast.In, ast.Is: ast.IsNot, ast.IsNot: ast.Is}
 
 
+ATTRSWAP = {"left": "right", "right": "left", "lhs": "rhs", "rhs": "lhs", "owner": "attr", "name": "namespace", "identifier": "expression",
+            "expression": "identifier", "func": "args"}
+
+
 def is_docstring(parent, node):
     return isinstance(parent, ast.Expr) and isinstance(node, ast.Constant) and isinstance(node.value, str)
 
@@ -65,6 +69,15 @@ def sites(tree):
                 out.append((idx, "strspace", line, f"string constant loses its blanks: {n.value[:30]!r}"))
             if any(c in n.value for c in "'%_\\"):
                 out.append((idx, "strmeta", line, f"string constant loses its quote/wildcard/backslash characters: {n.value[:30]!r}"))
+        if isinstance(n, ast.Dict) and len(n.keys) >= 2:
+            for j in range(len(n.keys)):
+                out.append((idx, f"dictdrop{j}", line, f"dict display loses entry {j}"))
+        if isinstance(n, (ast.Tuple, ast.List, ast.Set)) and len(n.elts) >= 2 and isinstance(getattr(n, "ctx", ast.Load()), ast.Load) \
+                and not isinstance(parents.get(n), (ast.Subscript, ast.arg, ast.AnnAssign)):
+            for j in range(len(n.elts)):
+                out.append((idx, f"listdrop{j}", line, f"sequence display loses element {j}"))
+        if isinstance(n, ast.Attribute) and isinstance(n.ctx, ast.Load) and n.attr in ATTRSWAP:
+            out.append((idx, "attrswap", line, f".{n.attr} -> .{ATTRSWAP[n.attr]}"))
         if isinstance(n, ast.Call) and len(n.args) >= 2 and not any(isinstance(a, ast.Starred) for a in n.args[:2]) and id(n) in in_func:
             out.append((idx, "swapargs", line, "swap first two arguments"))
         if isinstance(n, (ast.Expr, ast.Assign, ast.AugAssign)) and id(n) in in_func and not (isinstance(n, ast.Expr) and isinstance(n.value, ast.Constant)):
@@ -103,6 +116,14 @@ def apply(tree, idx, op):
         n.value = n.value.replace(" ", "")
     elif op == "strmeta":
         n.value = "".join(c for c in n.value if c not in "'%_\\") or "x"
+    elif op.startswith("dictdrop"):
+        j = int(op[8:])
+        del n.keys[j]
+        del n.values[j]
+    elif op.startswith("listdrop"):
+        del n.elts[int(op[8:])]
+    elif op == "attrswap":
+        n.attr = ATTRSWAP[n.attr]
     elif op == "swapargs":
         n.args[0], n.args[1] = n.args[1], n.args[0]
     elif op == "dropstmt":
@@ -169,7 +190,7 @@ def main(argv):
     seed = int(opt("--seed", "1"))
     jobs = int(opt("--jobs", "2"))
     out = opt("--out", "/tmp/mutsweep.jsonl")
-    ops = set(opt("--ops", "cmp,bool,not,negif,const,swapargs,dropstmt,retnone,addsub,except,strdel,strspace,strmeta").split(","))
+    ops = set(opt("--ops", "cmp,bool,not,negif,const,swapargs,dropstmt,retnone,addsub,except,strdel,strspace,strmeta,dictdrop,listdrop,attrswap").split(","))
     rels = [f for f in files.split(",") if f]
     if not rels:
         for d, _, fs in os.walk(os.path.join(REPO, "odata_query")):
@@ -181,7 +202,7 @@ def main(argv):
         src = open(os.path.join(REPO, rel)).read()
         tree = ast.parse(src)
         for idx, op, line, desc in sites(tree):
-            if op in ops:
+            if op in ops or op.rstrip("0123456789") in ops:
                 cands.append((rel, idx, op, line, desc))
     random.Random(seed).shuffle(cands)
     cands = cands[:mx]
